@@ -842,6 +842,121 @@ func (m *fieldModel) writesOf(fn *ssa.Function) map[*types.Var]bool {
 	return out
 }
 
+// directWrites: for a fetch routine (with the eth methods and jrpc2 helpers it calls), the eth.* fields that
+// are written by a store or a Write/Add/Set… call on an address whose path names the field: `any` – at least
+// one such write exists; `sure` – at least one of them is executed on every pass of the loop it stands in
+// (in its own function and at every call on the way), i.e. not only under a condition.  A field with direct
+// writes none of which is sure is filled in for some elements only (`if len(tx.PrecompHash) == 0 { tx.From.Write(…) }`).
+func (m *fieldModel) directWrites(fn *ssa.Function) (anyW, sure map[*types.Var]bool) {
+	w := m.w
+	anyW, sure = map[*types.Var]bool{}, map[*types.Var]bool{}
+	type dw struct {
+		in     ssa.Instruction
+		fields []*types.Var
+		guards map[*ssa.BasicBlock]bool
+		loop   *ssa.BasicBlock
+	}
+	var all []dw
+	seenFn := map[*ssa.Function]bool{}
+	var visit func(f *ssa.Function, d int)
+	visit = func(f *ssa.Function, d int) {
+		if seenFn[f] || d > 3 {
+			return
+		}
+		seenFn[f] = true
+		allInstrs(f, func(in ssa.Instruction) {
+			var addr ssa.Value
+			var call *ssa.Call
+			switch x := in.(type) {
+			case *ssa.Store:
+				addr = x.Addr
+			case *ssa.Call:
+				call = x
+				if cal := staticCallee(x); cal != nil && cal.Signature.Recv() != nil && len(x.Call.Args) > 0 {
+					if _, isPtr := cal.Signature.Recv().Type().(*types.Pointer); isPtr {
+						addr = x.Call.Args[0]
+					}
+				}
+			default:
+				return
+			}
+			var fs []*types.Var
+			for cur, i := addr, 0; cur != nil && i < 8; i++ {
+				switch y := cur.(type) {
+				case *ssa.FieldAddr:
+					if ff, _ := fieldOf(y); isEthStructField(ff, w) {
+						fs = append(fs, ff)
+					}
+					cur = y.X
+				case *ssa.IndexAddr:
+					cur = y.X
+				case *ssa.UnOp:
+					cur = y.X
+				default:
+					cur = nil
+				}
+			}
+			if len(fs) > 0 {
+				h := loopHeaderOf(in)
+				var lp map[*ssa.BasicBlock]bool
+				if h != nil {
+					lp = naturalLoop(h)
+				}
+				g := map[*ssa.BasicBlock]bool{}
+				for _, b := range f.Blocks {
+					// an arm of a two-way branch (inside the write's loop) that the write stands in
+					if b == h || len(b.Preds) != 1 || len(b.Preds[0].Succs) != 2 || !b.Dominates(in.Block()) {
+						continue
+					}
+					if lp != nil && !lp[b] {
+						continue
+					}
+					if b.Preds[0] == h {
+						continue // the loop's own test
+					}
+					g[b] = true
+				}
+				all = append(all, dw{in, fs, g, h})
+			}
+			if call != nil {
+				if h := regionCallee(call); h != nil && h.Blocks != nil && h != fn && isRepoFunc(h) && h.Pkg != nil && h.Pkg.Pkg.Path() == modPath+"/jrpc2" {
+					switch h.Name() {
+					case "Get", "blocks", "headers", "receipts", "logs", "traces", "do":
+					default:
+						visit(h, d+1)
+					}
+				}
+			}
+		})
+	}
+	visit(fn, 0)
+	// a write is partial when a sibling write of the same loop stands under strictly fewer conditions
+	for i, a := range all {
+		partial := false
+		for j, b := range all {
+			if i == j || a.in.Parent() != b.in.Parent() || a.loop != b.loop {
+				continue
+			}
+			sub := len(b.guards) < len(a.guards)
+			for g := range b.guards {
+				if !a.guards[g] {
+					sub = false
+				}
+			}
+			if sub {
+				partial = true
+			}
+		}
+		for _, f := range a.fields {
+			anyW[f] = true
+			if !partial {
+				sure[f] = true
+			}
+		}
+	}
+	return
+}
+
 func propC14(c *Ctx) {
 	c.Explanation = "The mechanism is tables and dispatch, all extracted from the program on every run: G = the case labels of (*logWithCtx).get with the eth.* fields each arm reads (following Hash/Num/Signer/Bytes); T_* = the constant string tables of package glf; the flag each table sets in glf.New; the fetch routine each flag enables in (*Client).Get and the flags that suppress it; W_x = the eth.* fields routine x writes (JSON-tagged fields of the decode destination for blocks/headers; stores, Write/Add calls, whole-struct copies for receipts/logs/traces). Rules: (R14.1) every selectable name is known to the planner; (R14.2) a table only promises what its routine writes; (R14.3) every flag set by the planner enables a routine and the planner subtracts the table it tested; (R14.4) a routine is suppressed only by a provider whose table is a superset; (R14.5) all declared block fields reach the planner. That the stored value equals the node's value is run-time (C11)."
 	w := c.W
@@ -925,6 +1040,7 @@ func propC14(c *Ctx) {
 			continue
 		}
 		W := m.writesOf(rout)
+		anyD, sureD := m.directWrites(rout)
 		for _, n := range m.tables[t] {
 			li := m.labels[n]
 			if li == nil {
@@ -939,7 +1055,19 @@ func propC14(c *Ctx) {
 				}
 			}
 			sort.Strings(missing)
-			c.Check("R14.2", t+"/"+n, li.pos, len(missing) == 0, fmt.Sprintf("table %s → flag %s → routine %s; get(%q) reads %s; not written by the routine: %v", t, flag.Name(), rout.Name(), n, fieldSetString(li.reads), missing))
+			// written for every element, not only for some (a write that stands under a condition of its own)
+			var partial []string
+			for f := range li.reads {
+				if W[f] && anyD[f] && !sureD[f] && !m.base[f] {
+					partial = append(partial, f.Name())
+				}
+			}
+			sort.Strings(partial)
+			detail := fmt.Sprintf("table %s → flag %s → routine %s; get(%q) reads %s; not written by the routine: %v", t, flag.Name(), rout.Name(), n, fieldSetString(li.reads), missing)
+			if len(partial) > 0 {
+				detail += fmt.Sprintf("; written only under a condition (for some elements): %v", partial)
+			}
+			c.Check("R14.2", t+"/"+n, li.pos, len(missing) == 0 && len(partial) == 0, detail)
 		}
 	}
 	c.Stats["name_table_pairs"] = nPairs
